@@ -391,6 +391,7 @@ class C12(Property):
         "Flatland.C12.Proofs.posts_flat_pair_button",
         "Flatland.C12.Proofs.posts_flat_pair_textarea",
         "Flatland.C12.Proofs.checked_iff",
+        "Flatland.C12.Proofs.checked_iff_array",
         "Flatland.C12.Proofs.label_raw_eq_control_raw",
         "Flatland.C12.Proofs.label_targets",
         "Flatland.C12.Proofs.submitted_orderPairs",
@@ -401,7 +402,7 @@ class C12(Property):
     generated_obligations = []
     level_text = "proof"
     level_note = ("partial: password/file/image inputs are excluded (KF-C12-a, refuted for the full statement by C12_full_fails); "
-                  "option/select and Array membership, and the form round trip through from_flat/flatten (C01), rest on "
+                  "option/select, and the form round trip through from_flat/flatten (C01), rest on "
                   "correspondence and the oracle")
     technique = ("symbolic evaluation of the transform pipeline under Enabled/Disabled contexts + frame lemmas; browser "
                  "successful-control rule as a function; order-independence of the rule under attribute sorting")
